@@ -40,6 +40,10 @@ def classify(g):
             return "EMPTY", pol
         if s.startswith("isinstance("):
             return "ISTREE", pol
+        if s.endswith(".nodes") or s.endswith(".tree_nodes") or s.endswith(".roots") or s.endswith(".get_number_of_nodes()"):
+            return "NOCLONES", not pol  # truthiness of the clone list / count: "there are clones"
+        if s.endswith("tree_roots"):
+            return "HASROOTS", pol
         raise AnalysisError("unrecognised truth guard in a proposal: %s" % s)
     if g[0] == "or":
         kinds = sorted(classify(x) for x in g[1])
